@@ -101,6 +101,7 @@ type evaluatedBuilder struct {
 }
 
 func evalArchiveBuilders(c *Ctx) []evaluatedBuilder {
+	pathNarrowings = map[string]string{} // per evaluation (several programs are analysed in one process: witnesses, mutants)
 	p := c.P
 	var out []evaluatedBuilder
 	for _, bs := range archiveBuilders {
@@ -372,6 +373,20 @@ func runC20(c *Ctx) {
 		c.ok("non-coincidence", "all-pairs", "-", itoa(n)+" template pairs of different kinds cannot produce the same key")
 	}
 
+	// numeric width: builders format their numeric slots with a type that covers the slot's own type
+	{
+		ids := make([]string, 0, len(pathNarrowings))
+		for id := range pathNarrowings {
+			ids = append(ids, id)
+		}
+		sort.Strings(ids)
+		for _, id := range ids {
+			c.fail("numeric-width", id+":format", p.Pos(p.Func(id).Decl.Pos()), id+" "+pathNarrowings[id])
+		}
+		if len(ids) == 0 {
+			c.ok("numeric-width", "pkg/model:builders-format", "-", "no path builder formats an unsigned 64-bit slot through a signed or narrower type")
+		}
+	}
 	// numeric width
 	{
 		f := p.Func("pkg/model.GetConsumableStorePathMetadata")
